@@ -1441,15 +1441,15 @@ def c08_real(ctx):
     return s
 
 PLANS["C08"] = dict(
-    modules=["Wx.Job.C08", "Wx.Job.C08b", "Wx.Job.C06", "Wx.Job.C08t", "Wx.Job.SimInduct3", "Wx.Cli.Action"],
-    theorems=["Ca.first_interrupt_quits_gracefully", "Ca.graceful_quit_sequence", "Ca.other_signals_pass", "Ca.interrupts_escalate", "Jm.c08_quit_bound", "Jm.c08_deadline", "Jm.quit_deadline", "Jm.idle_timer", "Jm.deadline_simInv", "Jm.nextEvent_some", "Jm.nextEvent_none", "Jm.c08_delete_after_stop", "Jm.c08_delete_idle", "Jm.c08_same_script_fixed", "Jm.c08_fails_today", "Jm.timer_fires", "Jm.expiry_kills", "Jm.graceful_stop_step", "Jm.held_back", "Jm.c04"],
+    modules=["Wx.Job.C08", "Wx.Job.C08b", "Wx.Job.C06", "Wx.Job.C08t", "Wx.Job.C08m", "Wx.Job.SimInduct3", "Wx.Cli.Action"],
+    theorems=["Jm.c08_main_bound", "Jm.dead_stays_dead", "Ca.first_interrupt_quits_gracefully", "Ca.graceful_quit_sequence", "Ca.other_signals_pass", "Ca.interrupts_escalate", "Jm.c08_quit_bound", "Jm.c08_deadline", "Jm.quit_deadline", "Jm.idle_timer", "Jm.deadline_simInv", "Jm.nextEvent_some", "Jm.nextEvent_none", "Jm.c08_delete_after_stop", "Jm.c08_delete_idle", "Jm.c08_same_script_fixed", "Jm.c08_fails_today", "Jm.timer_fires", "Jm.expiry_kills", "Jm.graceful_stop_step", "Jm.held_back", "Jm.c04"],
     bins=[("lib", ["wxquit", "wxquitreal"]), ("cli", ["wxcli-main", "wxcliaction"])],
     streams=lambda ctx: c08_streams(ctx) + [c08_real(ctx), cli_e2e(ctx, "C08")] + c05_streams(ctx, "cli-quit", "C08", cliquit_cases, cliquit_oracle),
     sources=["crates/lib/src/action/worker.rs", "crates/lib/src/watchexec.rs", "crates/lib/src/late_join_set.rs", "crates/supervisor/src/job/task.rs"],
     rule="a case is one quit scenario (manner, instant, 1-4 jobs with behaviours and pre-quit controls); non-trivial = the shutdown takes virtual time; distinct by (scenario, observation)",
-    assumptions=["the worker's quit branch (one task per job: stop_with_signal, delete().await; join; join job tasks) is composed from per-job runs of the job model by the check driver, not in Lean",
+    assumptions=["the worker's quit branch (one task per job: stop_with_signal, delete().await; join; join job tasks) is a product of per-job runs of the job model read at one common instant (Jm.Finals): job tasks share nothing but the clock; the check driver composes the per-job model runs the same way and compares the real worker with them",
                  "process-wrap KillOnDrop kills a child whose handle is dropped (abort); real process groups are exercised by the quit-real stream only"],
-    partial="the per-job time bound is a Lean theorem (c08_quit_bound: virtual clock, time passes only while the task is idle and never beyond an armed timer); the composition over several jobs (main ends when the slowest job task has ended) is done by the check driver, and real-time margins are measured by the quit-real stream; process-group members surviving a graceful quit is a recorded known finding (F15)",
+    partial="the per-job time bound is a Lean theorem (c08_quit_bound: virtual clock, time passes only while the task is idle and never beyond an armed timer); the composition over any number of jobs in any states is the Lean theorem c08_main_bound (no job task alive once the clock has passed the LARGEST per-job bound; ended tasks stay ended: dead_stays_dead); real-time margins are measured by the quit-real stream; process-group members surviving a graceful quit is a recorded known finding (F15)",
 )
 
 # ------------------------------------------------------------------------------------------------
